@@ -135,6 +135,31 @@ func apiCalls(text string, emit func(apiEvent)) {
 	emit(classify("schema.UsedUserTypes", in, src(map[string]int{"root": len(text)}), func() error { _, e := sch().UsedUserTypes(); return e }))
 	emit(classify("schema.Example", in, src(map[string]int{"root": len(text)}), func() error { _, e := sch().Example(); return e }))
 	emit(classify("schema.Validate", in, src(map[string]int{"root": len(text), "doc": 1}), func() error { return sch().Validate(jdoc.New("doc", "1")) }))
+	// the same object once more after a first call, failed or not: what follows stays a library error
+	emit(classify("schema.Check;Example", in, src(map[string]int{"root": len(text)}), func() error { s := sch(); _ = s.Check(); _, e := s.Example(); return e }))
+	emit(classify("schema.Check;Validate", in, src(map[string]int{"root": len(text), "doc": 1}), func() error {
+		s := sch()
+		_ = s.Check()
+		return s.Validate(jdoc.New("doc", "1"))
+	}))
+	emit(classify("type.AddType+Check;Example", in, src(map[string]int{"root": 8, "@t": len(text)}), func() error {
+		r := jschema.New("root", `{"k": @t}`)
+		if e := r.AddType("@t", jschema.New("@t", text)); e != nil {
+			return e
+		}
+		_ = r.Check()
+		_, e := r.Example()
+		return e
+	}))
+	emit(classify("type.AddType+Check;Check;Validate", in, src(map[string]int{"root": 8, "@t": len(text), "doc": 7}), func() error {
+		r := jschema.New("root", `{"k": @t}`)
+		if e := r.AddType("@t", jschema.New("@t", text)); e != nil {
+			return e
+		}
+		_ = r.Check()
+		_ = r.Check()
+		return r.Validate(jdoc.New("doc", `{"k":1}`))
+	}))
 	// as user type of a root that names it
 	emit(classify("type.AddType+Check", in, src(map[string]int{"root": 2, "@t": len(text)}), func() error {
 		r := jschema.New("root", "@t")
